@@ -119,7 +119,7 @@ def doAbsMove(port_name, rate, position1=None, position2=None, verbose=True):
         ebb_serial.min_version(port_name, "2.7.0") if necessary.
     '''
     if port_name is not None:
-        if position1 and position2:
+        if (position1 is not None) and (position2 is not None):
             str_output = 'HM,{0},{1},{2}\r'.format(rate, position1, position2)
         else:
             str_output = 'HM,{0}\r'.format(rate)
